@@ -41,17 +41,17 @@ fn poll<I: Iterator>(mut it: I) -> usize {
 /// sets also ids in the gaps.
 fn arg(r: &mut Rng, m: &Model) -> usize {
     let vs = m.vert_list();
-    let top = vs.iter().max().map_or(0, |x| x + 1);
+    let top = vs.iter().max().map_or(0, |x| x.saturating_add(1));
     match r.below(12) {
         0 => 0,
         1 => top.saturating_sub(1),
         2 => top,
-        3 => top + 1,
+        3 => top.saturating_add(1),
         4 => m.n(),
         5 => m.n() + 1,
         6 => 1000,
         7 => 1 << 20,
-        8 => r.below(top + 2),
+        8 => r.below(top.saturating_add(2)),
         _ => {
             if vs.is_empty() {
                 0
@@ -335,7 +335,16 @@ fn w_usize(r: &mut Rng, m: &Model) -> Model {
 fn probe(id: usize, r: &mut Rng, max: usize) -> String {
     let nv = VARIANTS.len();
     let m0 = small_model(r, max);
-    let sparse = gen::sparsify(r, &m0);
+    let mut sparse = gen::sparsify(r, &m0);
+    if r.chance(0.08) {
+        // the largest legal vertex id
+        let top = *sparse.verts.iter().max().unwrap();
+        let f = |v: usize| if v == top { usize::MAX } else { v };
+        sparse = Model {
+            verts: sparse.verts.iter().map(|&v| f(v)).collect(),
+            arcs: sparse.arcs.iter().map(|(&(u, v), &w)| ((f(u), f(v)), w)).collect(),
+        };
+    }
     let mut id = id;
     // traversals
     if id < TRAV.len() * nv {
